@@ -109,6 +109,8 @@ def gen_fit(rng, mcfg, nmax=4, allow_kinds=('Uniform', 'LogUniform',
             a = 10 ** (la + (lb - la) * rng.uniform(0, 0.3))
             b = 10 ** (lb - (lb - la) * rng.uniform(0, 0.3))
         kind = rng.choice(allow_kinds)
+        if rich and rng.random() < 0.1:
+            a, b = b, a          # bounds given in reverse order
         if kind == 'Uniform':
             spec = {'kind': kind, 'args': {'bounds': [a, b]}}
         elif kind == 'LogUniform':
@@ -116,11 +118,11 @@ def gen_fit(rng, mcfg, nmax=4, allow_kinds=('Uniform', 'LogUniform',
         elif kind == 'Gaussian':
             mean = 0.5 * (a + b)
             spec = {'kind': kind, 'args': {'mean': mean,
-                                           'std': (b - a) / 12.0}}
+                                           'std': abs(b - a) / 12.0}}
         else:
             la, lb = math.log10(a), math.log10(b)
             spec = {'kind': kind, 'args': {'mean': 0.5 * (la + lb),
-                                           'std': (lb - la) / 12.0}}
+                                           'std': abs(lb - la) / 12.0}}
         fit.append({'name': n, 'mode': rng.choice(['linear', 'log']),
                     'prior': spec, 'set_prior': True})
     return fit
